@@ -197,11 +197,22 @@ class ContainedSubtypeConstraint(AbstractConstraint):
         divisor_of_eighteen = DivisorOfEighteen(10)
     """
     def _testValue(self, value, idx):
+        # INCLUDES T | v1 | v2: a value of a contained subtype, or one of
+        # the listed values
         for constraint in self._values:
             if isinstance(constraint, AbstractConstraint):
-                constraint(value, idx)
-            elif value not in self._set:
-                raise error.ValueConstraintError(value)
+                try:
+                    constraint(value, idx)
+
+                except error.ValueConstraintError:
+                    continue
+
+                return
+
+            elif value == constraint:
+                return
+
+        raise error.ValueConstraintError(value)
 
 
 class ValueRangeConstraint(AbstractConstraint):
